@@ -633,6 +633,17 @@ Section Fit.
     pose proof (pathmax_ge w zero (s :: t)). lia.
   Qed.
 
+  (* the recorded cost is the minimum, over all paths from prototypes, of the largest arc *)
+  Theorem fit_optimal : forall q, q < n ->
+    (forall s pi, s < n -> proto s -> path_from_to n s q pi -> (costF q <= pathmax w zero pi)%Z) /\
+    (exists s pi, s < n /\ proto s /\ path_from_to n s q pi /\ pathmax w zero pi = costF q).
+  Proof.
+    intros q Hq. split.
+    - intros s pi Hs Hpr Hpath. apply (fit_lower_bound q s pi); assumption.
+    - destruct (fit_roots q Hq) as (r & k & pi & R1 & R2 & _ & _ & _ & _ & R7 & R8).
+      exists r, pi. split; [exact R1|]. split; [exact R2|]. split; [exact R7|exact R8].
+  Qed.
+
   Theorem fit_status_label :
     n_status ndF = st /\ (semi = false -> n_label ndF = lab0) /\
     (semi = true -> forall q, q < n ->
